@@ -304,3 +304,190 @@ Proof.
     + destruct (funnelled e); inversion H; reflexivity.
   - destruct root; try discriminate H. destruct (lookup x kvs); inversion H; reflexivity.
 Qed.
+
+(* ---- totality: every exception the resolver raises is one the lookups funnel ---------------------- *)
+Lemma sni_raises_funnelled x e : split_name_index x = Raise e -> funnelled e = true.
+Proof.
+  unfold split_name_index, bind. intros H.
+  repeat match type of H with
+         | context [match ?d with _ => _ end] => destruct d eqn:?; try discriminate H
+         | context [if ?d then _ else _] => destruct d eqn:?; try discriminate H
+         end.
+  all: try (inversion H; reflexivity).
+  all: match goal with Hp : pred_value _ = Raise _ |- _ => unfold pred_value in Hp;
+         repeat match type of Hp with
+                | context [if ?d then _ else _] => destruct d; try discriminate Hp
+                | context [match ?d with _ => _ end] => destruct d; try discriminate Hp
+                end end.
+Qed.
+
+Ltac loop_raises IH :=
+  match goal with
+  | Hx : ?L ?c ?v ?fs = Raise ?e0 |- funnelled ?e0 = true =>
+    revert Hx; generalize v, fs; generalize c;
+    let cs := fresh "cs" in let IHc := fresh "IHc" in
+    intros cs; induction cs as [|[[[? ?] ?] ?] ? IHc]; intros ? ? Hx; [discriminate Hx|];
+    cbn in Hx;
+    match type of Hx with
+    | context [find ?a ?b ?c2 ?d ?e1 ?g ?h ?i] =>
+      let Ef := fresh "Ef" in
+      destruct (find a b c2 d e1 g h i) as [[[? [|]] ?]|?| |] eqn:Ef; try discriminate Hx;
+      [ repeat match type of Hx with
+               | context [if ?d2 then _ else _] => destruct d2; try discriminate Hx
+               | context [match ?d2 with _ => _ end] => destruct d2; try discriminate Hx
+               end; eapply IHc; eassumption
+      | inversion Hx; subst; eapply IH; exact Ef ]
+    end
+  end.
+
+Theorem find_raises_funnelled rl : forall fuel root xs par parv fstr e,
+  find true rl fuel root xs par parv fstr = Raise e -> funnelled e = true.
+Proof.
+  induction fuel as [|f IH]; intros root xs par parv fstr e H; [discriminate H|].
+  cbn [find] in H. unfold bind in H.
+  repeat (step_in H; try discriminate H).
+  all: try (inversion H; subst; reflexivity).
+  all: try (eapply IH; eassumption).
+  all: try (eapply sni_raises_funnelled; eassumption).
+  all: try (match goal with Hl : lit_in _ _ = Raise _ |- _ => unfold lit_in in Hl;
+              repeat match type of Hl with
+                     | context [match ?d with _ => _ end] => destruct d; try discriminate Hl
+                     end; inversion Hl; subst; inversion H; subst; reflexivity end).
+  all: inversion H; subst; try (eapply IH; eassumption); try (eapply sni_raises_funnelled; eassumption).
+  all: try (loop_raises IH).
+  all: match goal with
+       | Hx : _ = Raise _ |- _ =>
+         unfold bind in Hx;
+         repeat match type of Hx with
+                | context [match ?d with _ => _ end] => destruct d eqn:?; try discriminate Hx
+                end;
+         try (inversion Hx; subst; reflexivity); try (eapply sni_raises_funnelled; eassumption)
+       end.
+  all: repeat match goal with Hx : Raise _ = Raise _ |- _ => inversion Hx; subst; clear Hx end;
+       try (eapply sni_raises_funnelled; eassumption); try (eapply IH; eassumption).
+  all: match goal with
+       | Hx : (if _ then _ else _) = Raise _ |- _ =>
+         repeat match type of Hx with context [if ?d then _ else _] => destruct d; try discriminate Hx end;
+         try (inversion Hx; subst; reflexivity);
+         unfold lit_in in Hx;
+         repeat match type of Hx with context [match ?d with _ => _ end] => destruct d; try discriminate Hx end;
+         inversion Hx; subst; reflexivity
+       end.
+Qed.
+
+Theorem lfind_raises_funnelled rl : forall fuel root xs par parv fstr e,
+  lfind rl fuel root xs par parv fstr = Raise e -> funnelled e = true.
+Proof.
+  induction fuel as [|f IH]; intros root xs par parv fstr e H; [discriminate H|].
+  cbn [lfind] in H. unfold bind in H.
+  repeat (step_in H; try discriminate H).
+  all: try (inversion H; subst; reflexivity).
+  all: try (eapply IH; eassumption).
+  all: try (eapply sni_raises_funnelled; eassumption).
+  all: inversion H; subst; try (eapply IH; eassumption); try (eapply sni_raises_funnelled; eassumption);
+       try (eapply find_raises_funnelled; eassumption).
+  all: match goal with
+       | Hx : ?L ?c ?v ?fs = Raise ?e0 |- funnelled ?e0 = true =>
+         revert Hx; generalize v, fs; generalize c;
+         let cs := fresh "cs" in let IHc := fresh "IHc" in
+         intros cs; induction cs as [|[i child] r IHc]; intros vals0 fst0 Hx; [discriminate Hx|];
+         cbn -[dec_of_nat br find lfind child_idx replace_at rebase] in Hx;
+         destruct child as [sc|dc kvs|lc xs1];
+         [ inversion Hx; reflexivity
+         | destruct (child_idx par i) as [cp|w]; [|discriminate Hx];
+           match type of Hx with context [find ?a ?b ?c2 ?d ?e1 ?g ?h ?i2] =>
+             destruct (find a b c2 d e1 g h i2) as [[[ch m] F]|e1'| |] eqn:Ef end;
+           cbn -[dec_of_nat br find lfind child_idx replace_at rebase] in Hx; try discriminate Hx;
+           [ destruct m; try discriminate Hx;
+             destruct (rest_falsy (f_rest (rebase cp F))); [destruct (f_val (rebase cp F)); try discriminate Hx|];
+             eapply IHc; eassumption
+           | inversion Hx; subst; eapply find_raises_funnelled; exact Ef ]
+         | match type of Hx with context [lfind ?a ?b ?c2 ?d ?e1 ?g ?h] =>
+             destruct (lfind a b c2 d e1 g h) as [[[ch m] F]|e1'| |] eqn:El end;
+           try discriminate Hx;
+           [ destruct m; try discriminate Hx;
+             destruct (rest_falsy (f_rest F)); [destruct (f_val F); try discriminate Hx|];
+             eapply IHc; eassumption
+           | inversion Hx; subst; eapply IH; exact El ] ]
+       end.
+Qed.
+
+(* get / first never raise; item access raises only the five classes of the statement *)
+Theorem dict_get_total fuel root x rl root' r :
+  dict_get fuel root x false rl = Ok (root', r) -> forall e, r <> LRaise e.
+Proof.
+  intros H e Er. subst r.
+  pose proof (dict_get_no_funnelled fuel root x rl root' e H) as Hnf.
+  (* the exception can only come from the resolver, which raises funnelled classes only *)
+  unfold dict_get in H.
+  assert (G : forall y dflt, (forall e', dflt <> LRaise e') ->
+              dict_get_core fuel root y false rl dflt = Ok (root', LRaise e) -> False).
+  { intros y dflt Hd Hc. unfold dict_get_core in Hc.
+    destruct (has_path_char y).
+    - destruct (find true rl fuel root (tokenize y) (PAt []) root s_root) as [[[r0 m] F]|e0| |] eqn:Ef; try discriminate Hc.
+      + destruct (rest_falsy (f_rest F)); [destruct (f_val F); inversion Hc|injection Hc as _ E; eapply Hd; exact E].
+      + rewrite (find_raises_funnelled rl _ _ _ _ _ _ _ Ef) in Hc. injection Hc as _ E. eapply Hd; exact E.
+    - destruct root; try discriminate Hc. destruct (lookup y kvs); injection Hc as _ E; [discriminate E|eapply Hd; exact E]. }
+  destruct x as [|c x']; [eapply G; [|exact H]; discriminate|].
+  destruct (N.eqb c 63) eqn:Ec.
+  - apply N.eqb_eq in Ec. subst c. eapply G; [|exact H]. discriminate.
+  - assert (Hm : match c :: x' with 63%N :: x'0 => dict_get_core fuel root x'0 false rl LEmpty
+                                | _ => dict_get_core fuel root (c :: x') false rl LDefault end
+                 = dict_get_core fuel root (c :: x') false rl LDefault).
+    { apply N.eqb_neq in Ec. destruct c as [|p]; [reflexivity|].
+      repeat (destruct p as [p|p|]; try reflexivity). congruence. }
+    rewrite Hm in H. eapply G; [|exact H]. discriminate.
+Qed.
+
+Theorem dict_getitem_raises_allowed fuel root x root' e :
+  dict_getitem fuel root x = Ok (root', LRaise e) -> funnelled e = true.
+Proof.
+  unfold dict_getitem, dict_get. intros H.
+  assert (G : forall y re dflt, dict_get_core fuel root y re true dflt = Ok (root', LRaise e) ->
+              (forall e', dflt <> LRaise e') -> funnelled e = true).
+  { intros y re dflt Hc Hd. unfold dict_get_core in Hc.
+    destruct (has_path_char y).
+    - destruct (find true true fuel root (tokenize y) (PAt []) root s_root) as [[[r0 m] F]|e0| |] eqn:Ef; try discriminate Hc.
+      + destruct (rest_falsy (f_rest F)); [destruct (f_val F); inversion Hc|].
+        destruct re; injection Hc as _ E; [subst; reflexivity|exfalso; eapply Hd; exact E].
+      + rewrite (find_raises_funnelled true _ _ _ _ _ _ _ Ef) in Hc.
+        destruct re; injection Hc as _ E; [subst; eapply find_raises_funnelled; exact Ef|exfalso; eapply Hd; exact E].
+    - destruct root; try discriminate Hc. destruct (lookup y kvs); [inversion Hc|].
+      destruct re; injection Hc as _ E; [subst; reflexivity|exfalso; eapply Hd; exact E]. }
+  destruct x as [|c x']; [eapply G; [exact H|discriminate]|].
+  destruct (N.eqb c 63) eqn:Ec.
+  - apply N.eqb_eq in Ec. subst c. eapply G; [exact H|discriminate].
+  - assert (Hm : match c :: x' with 63%N :: x'0 => dict_get_core fuel root x'0 false true LEmpty
+                                | _ => dict_get_core fuel root (c :: x') true true LDefault end
+                 = dict_get_core fuel root (c :: x') true true LDefault).
+    { apply N.eqb_neq in Ec. destruct c as [|p]; [reflexivity|].
+      repeat (destruct p as [p|p|]; try reflexivity). congruence. }
+    rewrite Hm in H. eapply G; [exact H|discriminate].
+Qed.
+
+Theorem list_get_total fuel root x rl root' r :
+  list_get fuel root x false rl = Ok (root', r) -> forall e, r <> LRaise e.
+Proof.
+  intros H e Er. subst r. unfold list_get in H.
+  assert (G : forall y dflt, (forall e', dflt <> LRaise e') ->
+              list_get_core fuel root y false rl dflt = Ok (root', LRaise e) -> False).
+  { intros y dflt Hd Hc. unfold list_get_core in Hc.
+    destruct (has_path_char y).
+    - destruct (lfind rl fuel root (tokenize y) (PAt []) root s_root) as [[[r0 m] F]|e0| |] eqn:Ef; try discriminate Hc.
+      + destruct (rest_falsy (f_rest F)); [destruct (f_val F); inversion Hc|injection Hc as _ E; eapply Hd; exact E].
+      + rewrite (lfind_raises_funnelled rl _ _ _ _ _ _ _ Ef) in Hc. injection Hc as _ E. eapply Hd; exact E.
+    - destruct root; try discriminate Hc. destruct (n0eval y); try discriminate Hc.
+      + destruct (norm_idx (length xs) z); [destruct (nth_error xs n); inversion Hc|injection Hc as _ E; eapply Hd; exact E].
+      + injection Hc as _ E. eapply Hd; exact E. }
+  destruct x as [|c x']; [inversion H|].
+  destruct (N.eqb c 63) eqn:Ec.
+  - apply N.eqb_eq in Ec. subst c. eapply G; [|exact H]. discriminate.
+  - assert (Hm : match c :: x' with
+                 | [] => Ok (root, LDefault)
+                 | 63%N :: x'0 => list_get_core fuel root x'0 false rl LEmpty
+                 | _ => list_get_core fuel root (c :: x') false rl LDefault end
+                 = list_get_core fuel root (c :: x') false rl LDefault).
+    { apply N.eqb_neq in Ec. destruct c as [|p]; [reflexivity|].
+      repeat (destruct p as [p|p|]; try reflexivity). congruence. }
+    rewrite Hm in H. eapply G; [|exact H]. discriminate.
+Qed.
